@@ -96,6 +96,19 @@ package bft
 //@ func (*BFT).CheckProposerAndProposal
 //@   ensures[sameproposal] !interrupt ==> bytes(msg.Qc.BlockHash) == bytes(b.BlockHash) && bytes(msg.Qc.ResultsHash) == resultsHashOf(b.Results)
 
+// ---- C01: a root-chain reset carries over election candidates only -----------------------------------------------------
+// Leader messages are validated against the view the replica is in WHEN THEY ARRIVE. A committee-preserving root-chain
+// update restarts the height at round 0 under a new root height: of the messages parked for round 0 only the ELECTION
+// candidates (which carry no certificate) survive the reset - a PROPOSE / PRECOMMIT / COMMIT parked under the old view
+// would otherwise be replayed, unchecked, in the new one. phaseStr names what phaseToString computes (ASSUMED).
+//@ spec func phaseStr(p int) string
+//@ func phaseToString
+//@   trusted
+//@   pure
+//@   ensures result == phaseStr(p)
+//@ func (*BFT).ProposalsResetForNewCommittee
+//@   ensures[electiononly] fresh(b.Proposals) && (forall r uint64 :: indom(b.Proposals, r) ==> r == 0) && (forall k string :: indom(b.Proposals[0], k) ==> k == phaseStr(Election))
+
 // ---- C01: only signed consensus messages are counted ----------------------------------------------------------
 // a replica's vote or a leader's message reaches the vote / proposal sets only after the signature in its wrapper
 // verified, under the key in that wrapper, over the message's own sign bytes
